@@ -169,6 +169,8 @@ type PathResult struct {
 	MaxLoopSeen int
 	Samples    []string
 	ForkSites  map[string]int
+	UnknownMsgs []string
+	SecondOpinion []string
 }
 
 // ---------------------------------------------------------------------------
@@ -850,7 +852,7 @@ func (ex *Exec) callFn(g *G, fn *ssa.Function, args []Value, env []Value, retTo 
 		return false // dependencies are initialised lazily, on first use of their globals
 	}
 	name := fn.String()
-	if h, ok := ex.w.intercepts[name]; ok {
+	if h, ok := ex.cfg.icpt[name]; ok {
 		ex.res.Intercepts[name]++
 		return ex.runIntercept(g, h, name, fn, args, retTo)
 	}
